@@ -135,6 +135,9 @@ pub fn main_entry(hooks: bool) {
                     .status()
                     .unwrap_or_else(|e| machinery(&format!("cannot start the exploration process: {e}")));
                 match status.code() {
+                    // 101 = an uncaught panic: every call into the code under test is caught, so this is a bug of
+                    // the machinery, never a verdict
+                    Some(101) => machinery("the exploration process panicked outside the code under test (see the message above)"),
                     Some(c) => std::process::exit(c),
                     None => {
                         use std::os::unix::process::ExitStatusExt;
